@@ -53,6 +53,8 @@ FOREIGN = [-1]
 
 
 def fr(x):
+    if isinstance(x, float) and not math.isfinite(x):
+        return ['nf', repr(x)]
     f = Fraction(x)
     return [f.numerator, f.denominator]
 
@@ -113,6 +115,8 @@ KEEP = []
 
 def res_code(delta):
     if isinstance(delta, (int, float)) and not isinstance(delta, bool):
+        if not math.isfinite(delta):
+            return ['nonfinite', repr(delta)]
         return ['delta'] + fr(delta)
     return ['other']
 
@@ -154,7 +158,10 @@ class QProxy:
         tid = task_id(task)
         wrap_awake(task, tid)
         self.q.add(prio, task)
-        LOG.append((self.cid, 'add', fr(prio), tid))
+        if not math.isfinite(prio):
+            LOG.append((self.cid, 'add_nonfinite', repr(prio), tid))
+        else:
+            LOG.append((self.cid, 'add', fr(prio), tid))
 
     def pop(self):
         if not owned():
@@ -369,6 +376,10 @@ class Run:
         self.cid = None
         self.async_open = set()
         self.not_run = 0
+        self.responsive = None
+        self.final_queue = None
+        self.queue_consistent = None
+        self.log1 = None
 
     def make_task(self, tid, spec):
         run = self
@@ -395,6 +406,11 @@ class Run:
                 return 'not a number'
             if r[0] == 'bool':
                 return True
+            if r[0] == 'num':
+                return {'i0': 0, 'f0': 0.0, 'nf0': -0.0, 'false': False, 'true': True, 'inf': float('inf'),
+                        'i1': 1, 'empty': '', 'list': []}[r[1]]
+            if r[0] == 'base_exc':
+                raise KeyboardInterrupt
             return None
         if spec.get('routine') is not None:
             # a real Routine: yields `routine` numeric deltas, then ENDS (its last awake raises StopStream)
@@ -422,6 +438,22 @@ class Run:
         try:
             if k == 'sleep':
                 time.sleep(op[1] / 1000.0)
+            elif k == 'busy':
+                t_end = time.time() + op[1] / 1000.0       # a body that runs late (holds the lock)
+                while time.time() < t_end:
+                    pass
+            elif k == 'stop':
+                c.stop()
+            elif k == 'sched_x':
+                # explicit edge values for the delay: 'i0' 'f0' 'nf0' 'none' 'inf'
+                val = {'i0': 0, 'f0': 0.0, 'nf0': -0.0, 'none': None, 'inf': float('inf'), 'false': False}[op[2]]
+                t0 = real_now()
+                try:
+                    c.sched(val, self.tasks[op[1]])
+                    out = 'ok'
+                except Exception as e:
+                    out = type(e).__name__
+                self.scheds.append([who, op[1], 'x:' + op[2], out, t0, real_now()])
             elif k == 'sched':
                 t0 = real_now()
                 outside = who.startswith('client') or who == 'main'
@@ -524,6 +556,33 @@ class Run:
                 del LOG[:]
         return out
 
+    def snapshot(self, cid, kind):
+        c = self.clock
+        locks = [main._main_lock]
+        if kind == 'app' and PROXIES:
+            locks.append(clk.AppClock._tick_cond)
+        for l in locks:
+            l.__enter__() if not hasattr(l, 'cond') else l.cond.acquire()
+        try:
+            q = c._scheduler.queue if kind == 'app' else c._task_queue
+            raw = getattr(q, 'q', q)
+            try:
+                items = [(fr(p), task_id(t)) for p, t in list(iter(raw)) if math.isfinite(p)]
+                live = [e for e in raw._queue if e[-1] is not raw._REMOVED]
+                tomb = len(raw._queue) - len(live)
+                self.queue_consistent = bool(
+                    raw.empty() == (len(live) == 0) and raw._removed_counter == tomb
+                    and len(raw._entry_finder) == len(live)
+                    and all(raw._entry_finder.get(e[-1]) is e for e in live))
+            except Exception as e:
+                items, self.queue_consistent = None, 'error %r' % (e,)
+            self.final_queue = items
+            self.log1 = list(LOG)
+            del LOG[:]
+        finally:
+            for l in reversed(locks):
+                l.__exit__(None, None, None) if not hasattr(l, 'cond') else l.cond.release()
+
     def settle_start(self, cid):
         """bring a singleton clock to 'waiting with an empty queue' and cut the log there"""
         c = self.clock
@@ -622,12 +681,33 @@ class Run:
         alive = None
         if kind == 'tempo':
             alive = c._thread is not None and c._thread.is_alive()
-            if final != 'stop':
-                c.stop()
-                wait_for(lambda: c._thread is None, 5)
         else:
             alive = c._thread.is_alive()
-        log = self.cut([cid])
+        # the clock must still be responsive: a probe scheduled now runs (generous wait; liveness is assumed,
+        # this only tells a dead / wedged thread from a working one)
+        if final != 'stop' and not sc.get('expect_dead') and not alive:
+            self.responsive = False
+        elif final != 'stop' and not sc.get('expect_dead'):
+            self.tasks[0] = self.make_task(0, {'results': [['none']]})
+            try:
+                if kind == 'app':
+                    c.sched(0.0, self.tasks[0])
+                else:
+                    self.do_op(['sched', 0, 0, 1], 'main')
+                self.responsive = wait_for(lambda: self.count.get(0, 0) > 0, 10)
+            except Exception as e:
+                self.responsive = False
+                self.errors.append('probe: %r' % (e,))
+            time.sleep(0.01)
+        # snapshot of the real queue, with the log up to here (two-site check: model queue vs real queue)
+        self.snapshot(cid, kind)
+        if kind == 'tempo' and final != 'stop':
+            try:
+                c.stop()
+            except Exception:
+                pass
+            wait_for(lambda: c._thread is None, 5)
+        log = self.log1 + self.cut([cid])
         if self.aux is not None:
             try:
                 self.aux.stop()
@@ -638,7 +718,9 @@ class Run:
                 'other': sorted(set(str(e[0]) for e in log if e[0] != cid)),
                 'awakes': self.awakes, 'scheds': self.scheds, 'errors': self.errors,
                 'alive': alive, 'window': window, 'problems': list(PROBLEMS),
-                'final_done_at': self.final_done_at, 'async_not_run': self.not_run}
+                'final_done_at': self.final_done_at, 'async_not_run': self.not_run,
+                'responsive': self.responsive, 'final_queue': self.final_queue,
+                'n_log1': len([e for e in self.log1 if e[0] == cid]), 'queue_consistent': self.queue_consistent}
 
     def client(self, i, ops):
         for op in ops:
